@@ -45,9 +45,24 @@ import (
 // PING -> PING ack; SETTINGS -> SETTINGS ack (bfe keeps it as a flag, never queued); DATA on a
 // closed stream -> RST_STREAM(STREAM_CLOSED), plus a connection WINDOW_UPDATE refunding the
 // payload when there is one; HEADERS without :method -> RST_STREAM(PROTOCOL_ERROR).
-var c37elicits = map[string]int{"ping": 1, "settings": 0, "rst0": 1, "wurst": 2, "hdr": 1}
+//
+// Framer-level stream errors (Framer.ReadFrame itself rejects the frame; the serve loop gets
+// readFrameResult.err != nil and answers RST_STREAM without ever calling processFrame):
+// wu0 = WINDOW_UPDATE with increment 0 on a stream > 0; badpad = HEADERS with Pad Length larger
+// than the payload; badhdr = HEADERS whose header block has an upper-case field name.
+var c37elicits = map[string]int{"ping": 1, "settings": 0, "rst0": 1, "wurst": 2, "hdr": 1, "wu0": 1, "badpad": 1, "badhdr": 1}
 
 var c37mix = []string{"ping", "settings", "rst0", "wurst", "hdr"}
+
+// fmix = a flood made ONLY of frames the framer rejects (no frame of it reaches processFrame)
+var c37fmix = []string{"wu0", "badpad", "badhdr"}
+
+// c37rawFrame renders a frame the client-side Framer would refuse to write.
+func c37rawFrame(typ FrameType, flags Flags, stream uint32, payload []byte) []byte {
+	l := len(payload)
+	b := []byte{byte(l >> 16), byte(l >> 8), byte(l), byte(typ), byte(flags), byte(stream >> 24 & 0x7f), byte(stream >> 16), byte(stream >> 8), byte(stream)}
+	return append(b, payload...)
+}
 
 const c37closedStream = 3 // opened and finished during setup
 const c37hdrBase = 101    // first stream id used by "hdr" frames
@@ -58,8 +73,19 @@ func c37frame(e *h2env, kind string, i int) (raw []byte, sub string) {
 	if kind == "mix" {
 		sub = c37mix[i%len(c37mix)]
 	}
+	if kind == "fmix" {
+		sub = c37fmix[i%len(c37fmix)]
+	}
 	e.wbuf.Reset()
 	switch sub {
+	case "wu0":
+		return c37rawFrame(FrameWindowUpdate, 0, c37closedStream, []byte{0, 0, 0, 0}), sub
+	case "badpad":
+		// Pad Length 5, one byte of block: padding larger than the payload
+		return c37rawFrame(FrameHeaders, FlagHeadersPadded|FlagHeadersEndHeaders|FlagHeadersEndStream, uint32(c37hdrBase+2*i), []byte{5, 0x82}), sub
+	case "badhdr":
+		// literal field without indexing (no HPACK state), name "A": upper case is malformed
+		return c37rawFrame(FrameHeaders, FlagHeadersEndHeaders|FlagHeadersEndStream, uint32(c37hdrBase+2*i), []byte{0x00, 0x01, 'A', 0x01, 'b'}), sub
 	case "ping":
 		e.fr.WritePing(false, [8]byte{'c', '3', '7', byte(i >> 16), byte(i >> 8), byte(i)})
 	case "settings":
@@ -90,6 +116,8 @@ func c37class(ev string) string {
 		return "rst"
 	case "wurst":
 		return "wu+rst"
+	case "wu0", "badpad", "badhdr":
+		return "rst(framer-error)"
 	}
 	return ev
 }
@@ -97,6 +125,9 @@ func c37class(ev string) string {
 func c37emax(kind string) int {
 	if kind == "mix" {
 		return 2
+	}
+	if kind == "fmix" {
+		return 1
 	}
 	if c37elicits[kind] == 0 {
 		return 1
@@ -394,7 +425,9 @@ func c37pings(e *h2env, n int) []byte {
 // c37exec runs one execution of family fam: preload to limit-k pending control frames with the
 // client stalled (k<0: no preload, client reading), then `depth` chosen events. noUnstall
 // removes the unstall event from the alphabet (quick tier: the client never reads again).
-func c37exec(t *testing.T, r *vk.Run, fam string, k, depth int, noUnstall bool, state string, ch *vk.Chooser, nth int64) {
+// own (nil in replay mode) decides after the second choice whether this shard owns the subtree
+// below the first two choices; counted reports whether the execution was owned and recorded.
+func c37exec(t *testing.T, r *vk.Run, fam string, k, depth int, noUnstall bool, state string, ch *vk.Chooser, nth int64, own func(a, b int) bool) (counted bool) {
 	c37run(t, func(e *h2env) {
 		limit := e.srv.maxQueuedControlFrames()
 		const emax = 2
@@ -429,12 +462,17 @@ func c37exec(t *testing.T, r *vk.Run, fam string, k, depth int, noUnstall bool, 
 		}
 		var hist []string
 		dead, violated, hdrSet := false, false, false
+		first, nchoices := 0, 0
+		var outs []string // recorded only if this shard owns the execution
+		var trans int64
 		for d := 0; d < depth && !dead; d++ {
 			if h1.busy {
 				h1.poll()
 			}
 			var evs []c37event
-			for _, kind := range []string{"ping", "settings", "rst0", "wurst"} {
+			// one flood symbol per server path: processPing; SETTINGS-ack flag; framer-level
+			// stream error -> resetStream; processData error -> WINDOW_UPDATE + resetStream
+			for _, kind := range []string{"ping", "settings", "wu0", "wurst"} {
 				kind := kind
 				evs = append(evs, c37event{kind, func() {
 					raw, _ := c37frame(e, kind, nframe)
@@ -471,16 +509,23 @@ func c37exec(t *testing.T, r *vk.Run, fam string, k, depth int, noUnstall bool, 
 			if ch.Skipped {
 				return
 			}
+			if d == 0 {
+				first = i
+			}
+			if d == 1 && own != nil && !own(first, i) {
+				return
+			}
+			nchoices++
 			ev := evs[i]
 			hist = append(hist, ev.name)
 			ev.run()
 			if h1.busy {
 				h1.poll()
 			}
-			r.Transitions(1)
+			trans++
 			if len(e.panics) > 0 {
 				t.Logf("c37: serve loop panicked in %s after %v: %v", ch.CaseID(fam), hist, e.panics)
-				r.Outcome("serve-panic")
+				outs = append(outs, "serve-panic")
 				break
 			}
 			o := c37observe(e)
@@ -492,26 +537,34 @@ func c37exec(t *testing.T, r *vk.Run, fam string, k, depth int, noUnstall bool, 
 				return fmt.Sprintf("family %s (connection state %s, preload limit-%d), after events %v, no clock advance", fam, state, k, hist)
 			}) {
 				violated = true
-				r.Outcome("order:" + fam + ":violation")
+				outs = append(outs, "order:"+fam+":violation")
 				break
 			}
 			if o.closed {
 				dead = true
-				r.Outcome(fmt.Sprintf("order:%s:closed:pending=limit%+d", fam, o.q-limit))
+				outs = append(outs, fmt.Sprintf("order:%s:closed:pending=limit%+d", fam, o.q-limit))
 			}
 		}
 		if o := c37observe(e); !dead && !violated && len(e.panics) == 0 {
 			switch {
 			case o.q == limit:
-				r.Outcome("order:" + fam + ":open:pending=limit")
+				outs = append(outs, "order:"+fam+":open:pending=limit")
 			case o.q >= limit-4:
-				r.Outcome("order:" + fam + ":open:pending-near-limit")
+				outs = append(outs, "order:"+fam+":open:pending-near-limit")
 			case o.q == 0:
-				r.Outcome("order:" + fam + ":open:pending=0")
+				outs = append(outs, "order:"+fam+":open:pending=0")
 			default:
-				r.Outcome("order:" + fam + ":open:pending-small")
+				outs = append(outs, "order:"+fam+":open:pending-small")
 			}
 		}
+		if own != nil && nchoices < 2 && !r.Mine(0) {
+			return // executions shorter than the sharding prefix belong to shard 0
+		}
+		counted = true
+		for _, o := range outs {
+			r.Outcome(o)
+		}
+		r.Transitions(trans)
 		r.Case(ch.CaseID(fam))
 		r.Nontrivial(fam + " " + strings.Join(hist, " "))
 		if nth%2000 == 7 {
@@ -519,6 +572,7 @@ func c37exec(t *testing.T, r *vk.Run, fam string, k, depth int, noUnstall bool, 
 			r.Sample(map[string]interface{}{"family": fam, "events": strings.Join(hist, " "), "pending": o.q, "counter": o.ctr, "closed": o.closed})
 		}
 	})
+	return counted
 }
 
 func TestVerifC37(t *testing.T) {
@@ -536,7 +590,7 @@ func TestVerifC37(t *testing.T) {
 	// connection, and x {reads everything, stall@0} in the states graceful / cgoaway; thorough:
 	// every kind x all six reader patterns x all three states. In replay mode every case id is
 	// reachable.
-	kinds := []string{"ping", "settings", "rst0", "wurst", "hdr", "mix"}
+	kinds := []string{"ping", "settings", "rst0", "wurst", "hdr", "mix", "wu0", "badpad", "badhdr", "fmix"}
 	all := r.Thorough() || r.Replaying()
 	type floodCase struct {
 		kind  string
@@ -558,22 +612,9 @@ func TestVerifC37(t *testing.T) {
 			}
 		}
 	}
-	// vk.ExploreSharded hashes the first two choices of part (b) onto shards very unevenly for a
-	// 6/7-event alphabet and 16 shards (the middle shards get nothing, shard 0 the most): the
-	// flood cases go preferably to the shards that part (b) leaves idle. (Any assignment is a
-	// partition.) Weights: shards 7-9 x4, 6/10 x3, 5/11 x2, 4/12 x1.
-	var floodShard []int
-	for _, g := range []struct {
-		n  int
-		sh []int
-	}{{4, []int{7, 8, 9}}, {3, []int{6, 10}}, {2, []int{5, 11}}, {1, []int{4, 12}}} {
-		for i := 0; i < g.n; i++ {
-			floodShard = append(floodShard, g.sh...)
-		}
-	}
 	for ncase, fc := range cases {
 		kind, p, state := fc.kind, fc.p, fc.state
-		idx := floodShard[ncase%len(floodShard)]
+		idx := ncase // round robin over the shards
 		n := limit + 2
 		switch p.name {
 		case "read":
@@ -609,7 +650,7 @@ func TestVerifC37(t *testing.T) {
 	// ---- part (b)
 	// quick: the preload families explore only orders WITHOUT unstall (names ending in q: the
 	// client stays stalled, so the 0.1-0.3 s drain of a full queue never runs); thorough explores
-	// the full alphabet incl. unstall/stall. Suffix g / c = connection state graceful / cgoaway.
+	// the full alphabet incl. unstall/stall, and pre3n goes one level deeper without unstall. Suffix g / c = connection state graceful / cgoaway.
 	// Different names because the event indices differ. Cheapest family first: if the wall-clock
 	// budget expires on a loaded machine, only the most expensive family is cut short.
 	type fam struct {
@@ -627,7 +668,7 @@ func TestVerifC37(t *testing.T) {
 	thorF := []fam{
 		{"fresh", -1, 7, false, "none"}, {"freshg", -1, 6, false, "graceful"},
 		{"pre1", 1, 5, false, "none"}, {"pre1g", 1, 5, false, "graceful"}, {"pre1c", 1, 4, false, "cgoaway"},
-		{"pre3g", 3, 5, false, "graceful"}, {"pre3", 3, 6, false, "none"},
+		{"pre3n", 3, 6, true, "none"}, {"pre3g", 3, 5, false, "graceful"}, {"pre3", 3, 5, false, "none"},
 	}
 	var fams []fam
 	switch {
@@ -646,21 +687,42 @@ func TestVerifC37(t *testing.T) {
 	}
 	for _, f := range fams {
 		complete := true
-		var nth int64
-		n := vk.ExploreSharded(r, f.name, 2, -1, func(ch *vk.Chooser) {
-			nth++
-			c37exec(t, r, f.name, f.k, f.depth, f.noUnstall, f.state, ch, nth)
-		}, func() bool {
+		started := time.Now() // real time: outside any bubble
+		stop := func() bool {
 			if r.Expired("c37 " + f.name) {
 				complete = false
 				return true
 			}
 			return false
-		})
+		}
+		var n int64
+		if r.Replaying() {
+			n = vk.ExploreSharded(r, f.name, 2, -1, func(ch *vk.Chooser) {
+				c37exec(t, r, f.name, f.k, f.depth, f.noUnstall, f.state, ch, 0, nil)
+			}, stop)
+		} else {
+			// own sharding instead of vk.ExploreSharded (whose prefix hash leaves 3 of 16 shards
+			// idle and gives shard 0 14% of a 7-event tree): every shard walks the same DFS, the
+			// subtrees below the first two choices are numbered in DFS order and dealt round
+			// robin; a foreign subtree costs one execution cut after its second choice.
+			lastA, lastB, unit := -1, -1, -1
+			own := func(a, b int) bool {
+				if a != lastA || b != lastB {
+					lastA, lastB = a, b
+					unit++
+				}
+				return r.Mine(unit)
+			}
+			vk.Explore(r, nil, -1, func(ch *vk.Chooser) {
+				if c37exec(t, r, f.name, f.k, f.depth, f.noUnstall, f.state, ch, n, own) {
+					n++
+				}
+			}, stop)
+		}
 		r.Traces(n)
 		r.States(n)
 		if !r.Replaying() {
-			r.Set("family_"+f.name, fmt.Sprintf("state %s, preload limit-%d, depth %d, unstall events %v, complete=%v", f.state, f.k, f.depth, !f.noUnstall, complete))
+			r.Set("family_"+f.name, fmt.Sprintf("state %s, preload limit-%d, depth %d, unstall events %v, complete=%v, %.0f s in the last-merged shard", f.state, f.k, f.depth, !f.noUnstall, complete, time.Since(started).Seconds()))
 		}
 	}
 }
